@@ -1,8 +1,14 @@
 #!/bin/bash
 # setup_cmd: warm builds of every harness profile, offline, from files on disk only.
-set -e
 cd "$(dirname "$0")"
 export CARGO_NET_OFFLINE=true
 unset RUSTFLAGS
-(cd harness && cargo build --profile chk --bin vh-run --target-dir target >/dev/null 2>&1 && cargo build --profile rel --bin vh-run --target-dir target >/dev/null 2>&1)
+(
+  cd harness
+  cargo build --profile chk --bin vh-run --target-dir target >/dev/null 2>&1
+  cargo build --profile rel --bin vh-run --target-dir target >/dev/null 2>&1
+  cargo build --profile chk --bin vh-run --target-dir target-events --features events >/dev/null 2>&1
+  cargo build --profile rel --bin vh-run --target-dir target-events --features events >/dev/null 2>&1
+  RUSTFLAGS="--cfg gecs_verif -Zsanitizer=address" cargo +nightly build --profile rel --bin vh-run --target x86_64-unknown-linux-gnu --target-dir target-asan >/dev/null 2>&1
+)
 echo "setup ok"
